@@ -451,6 +451,48 @@ def round3_rules(res, fx, fin, cd, reader):
                        'packet, and the Messages or fragments in it are never transmitted' % g.q)
     if n < 1:
         raise AnalysisBroken('HOLD-PACKET: no tunnel output routine with a pending-size reset and a Write found')
+    # SOURCE-AFTER-READ: "fragments of different senders are never combined": a packet is filed under the address it came from
+    res.rule('SOURCE-AFTER-READ', 'in the tunnels\' DoInputImplementation every GetSourceOfLastReadPacket() is preceded, on every path from the head of the receive loop, by the Read() of that packet', floor=1)
+    n_sr = 0
+    for g in sorted((g for g in fx.funcs.values() if g.full and g.q.endswith('PacketTunnelIOGateway::DoInputImplementation')), key=lambda g: (g.file, g.line)):
+        srcs = [c for c in g.walk() if c.is_call() and (c.get('q') or '').endswith('::GetSourceOfLastReadPacket')]
+        reads = [c for c in g.walk() if c['k'] == 'CXXMemberCallExpr' and re.search(r'DataIO::(Read|ReadFrom)$', c.get('q') or '')]
+        # the statement that performs the read (`const io_status_t n = io ? io->Read(…) : -1;`) is the event: the read sits in one arm of a conditional expression
+        reads = [v for v in g.walk() if v['k'] == 'VarDecl' and v['ch'] and any(any(x is r for x in v['ch'][0].walk()) for r in reads)] or reads
+        for c in srcs:
+            n_sr += 1
+            cp = P.pos_of(g, c)
+            hdrs = [h for (h, body) in C.natural_loops(g) if cp and cp[0] in body]
+            rp = set(P.pos_of(g, r) for r in reads if P.pos_of(g, r))
+            ok = bool(reads) and bool(cp) and P.must_precede(g, reads, c) and all(not C.can_reach(g, (h, 0), set([cp]), avoid_points=rp) for h in hdrs)
+            res.ob('SOURCE-AFTER-READ', g.where(c), '%s: the packet\'s source is asked for after the packet was read' % g.q.split('::')[-2], ok, function=g.q, key='SOURCE-AFTER-READ|%s' % g.q,
+                   message='%s calls GetSourceOfLastReadPacket() on a path on which the packet of this iteration has not been read yet: every packet is filed under the sender of the PREVIOUS packet, '
+                           'so fragments of different senders (all numbering their Messages 0, 1, 2 …) land in one receive state and are merged into a Message nobody sent' % g.q)
+    if n_sr < 1:
+        raise AnalysisBroken('SOURCE-AFTER-READ: no GetSourceOfLastReadPacket() call found in the tunnel input routines')
+    # BUFFER-FREE: a packet that Write() has accepted stays in the buffer until all of it went out
+    res.rule('BUFFER-FREE', 'PacketizedProxyDataIO::Write refills _outputBuffer (SetNumBytes on it) only where HasBufferedOutput() — sent < buffered — was evaluated and found false; '
+                            '"some bytes of it were sent" is not the same as "it is still pending"', floor=1)
+    pw = [g for g in fx.funcs.values() if g.full and g.q == 'muscle::PacketizedProxyDataIO::Write']
+    if not pw:
+        raise AnalysisBroken('BUFFER-FREE: PacketizedProxyDataIO::Write has no analysed body')
+    pw = pw[0]
+    refills = [c for c in pw.walk() if c['k'] == 'CXXMemberCallExpr' and (c.get('q') or '').endswith('::SetNumBytes') and c.receiver() is not None and A.strip_casts(c.receiver()).get('n') == '_outputBuffer']
+    if not refills:
+        raise AnalysisBroken('BUFFER-FREE: the refill of _outputBuffer was not found in PacketizedProxyDataIO::Write')
+    for c in refills:
+        free = False
+        for (cn, t) in G.atoms_at(pw, c):
+            core, pol = A.bool_polarity(cn, t)
+            if pol is False and core.is_call() and (core.get('q') or '').endswith('::HasBufferedOutput'):
+                free = True
+            for (l_, op_, r_) in A.rel_forms(cn, t):
+                if op_ in ('>=', '==') and l_['k'] == 'MemberExpr' and l_.get('n') == '_outputBufferBytesSent' and r_.is_call() and (r_.get('q') or '').endswith('::GetNumBytes') \
+                        and r_.receiver() is not None and A.strip_casts(r_.receiver()).get('n') == '_outputBuffer':
+                    free = True
+        res.ob('BUFFER-FREE', pw.where(c), 'PacketizedProxyDataIO::Write overwrites the packet buffer only when nothing of the previous packet is pending', free, function=pw.q, key='BUFFER-FREE|%s' % pw.q,
+               message='PacketizedProxyDataIO::Write refills _outputBuffer without HasBufferedOutput() having been found false: a packet that was buffered but of which the stream has accepted zero bytes '
+                       'so far is overwritten by the next Write() — it had already been reported as accepted, so it silently vanishes from a loss-free byte stream')
     # PENDING-VISIBLE: what DoOutput() may still have to transmit is what HasBytesToOutput() reports
     res.rule('PENDING-VISIBLE', 'in the packet tunnels, a member of *this that (a) guards the DataIO::Write() of DoOutputImplementation (tested positive / non-empty on a dominating branch), (b) is an argument of '
                                 'that Write() and (c) can keep its value when the method returns (HOLD-PACKET: a Write() that takes nothing leaves the packet pending) is read by HasBytesToOutput() of the same '
